@@ -90,7 +90,7 @@ def _parse_comments(tokens: TokenIterator):
     """
     metadata = {}
     while tokens.peek().type == 'COMMENT':
-        comment = tokens.next().text
+        comment = tokens.next().text.rstrip('\r\n')
         while comment:
             comment, found, meta = comment.rpartition('::')
             if found:
